@@ -181,7 +181,35 @@ def handshake(chk: Check, repo: Repo) -> None:
     chk.ob("handshake-mac-inputs", hs.site(), all(x in txt for x in ("response_header_data", "self.session_id.to_bytes(2, 'big')", "self.public_key", "ecdh_server_public_key")), f"SessionResponse MAC input: {txt}", key="handshake-inputs")
 
 
+def cbc_padding(chk: Check, repo: Repo) -> None:
+    """CBC-MAC zero padding is shorter than one AES block: every zero-fill `bytes(<n>)` that reaches the CBC input in
+    xknx.secure has n in 0..15 (interval analysis with the constant block size every caller passes).  A fill that can be
+    a whole block (e.g. `bytes(16 - len(x) % 16)`) authenticates a different message than the specification's."""
+    from ..mayraise import MayRaise, _FuncAnalysis
+    mr = MayRaise(repo, None)
+    n = 0
+    for mod in ("xknx.secure.security_primitives", "xknx.secure.util"):
+        for f in repo.module(mod).functions.values():
+            feeds_cbc = f.name == "byte_pad" or any(call_name(c).endswith("encryptor.update") for c in calls(f.node))
+            if not feeds_cbc or f.name not in ("byte_pad", "calculate_message_authentication_code_cbc"):
+                continue
+            an = _FuncAnalysis(mr, f, None)
+            for c in calls(f.node):
+                if call_name(c) == "bytes" and len(c.args) == 1 and not isinstance(c.args[0], (ast.List, ast.Tuple, ast.Constant, ast.Name, ast.Attribute, ast.Call)):
+                    n += 1
+                    cfg_facts = tuple(an.facts(c))
+                    r = an.int_range(c.args[0], cfg_facts)
+                    ok = r is not None and 0 <= r[0] and r[1] <= 15
+                    chk.ob("cbc-zero-padding-shorter-than-a-block", f.site(c), ok, f"{f.qualname}: `{ast.unparse(c)}` fills {r if r else 'an unknown number of'} octets" + ("" if ok else " — may add a whole block (or an unbounded run) to the authenticated message"), key=f"pad|{f.qualname}|{ast.unparse(c)[:50]}")
+            if f.name == "calculate_message_authentication_code_cbc":
+                ups = [c for c in calls(f.node) if call_name(c).endswith("encryptor.update")]
+                ok = len(ups) == 1 and isinstance(ups[0].args[0], ast.Call) and call_name(ups[0].args[0]) == "byte_pad" and any(k.arg == "block_size" and repo.fold(k.value, f.module, None) == 16 for k in ups[0].args[0].keywords)
+                chk.ob("cbc-input-is-padded-once-to-the-block-size", f.site(), ok, f"CBC input: {[ast.unparse(u.args[0])[:60] for u in ups]} (one update over byte_pad(.., block_size=16))", key="pad|cbc-input")
+    chk.floor("zero-fill sites feeding CBC", n, 1)
+
+
 def run(chk: Check, repo: Repo) -> None:
+    cbc_padding(chk, repo)
     wrap_unwrap(chk, repo)
     timer_notify(chk, repo)
     handshake(chk, repo)
